@@ -64,6 +64,38 @@ def exaggerate(rng, ds):
             pass
 
 
+def later_component_2x2(rng, ds):
+    """A component-only glyph with >= 2 components whose FIRST component has the same 2x2 in every
+    master while a LATER one differs between masters."""
+    base = ds["ufos"][0]["glyphs"]
+    simple = [g["name"] for g in base if g["contours"] and not g["components"]]
+    if not simple:
+        return
+    target = next((g["name"] for g in base if len(g["components"]) >= 2 and not g["contours"]), None)
+    if target is None:
+        cands = [g["name"] for g in base if not g["contours"] and g["name"] != ".notdef"]
+        cands = cands or [g["name"] for g in base if g["components"] and not g["contours"]]
+        if not cands:
+            return
+        target = cands[0]
+    for ui, u in enumerate(ds["ufos"]):
+        gl = {g["name"]: g for g in u["glyphs"]}
+        if target not in gl:
+            continue
+        g = gl[target]
+        comps = [c for c in g["components"] if c["base"] in gl][:1]
+        if not comps:
+            comps = [{"base": simple[0], "t": [1, 0, 0, 1, 0, 0]}]
+        first = dict(comps[0])
+        first["t"] = [1, 0, 0, 1, first["t"][4], first["t"][5]]
+        second = {"base": simple[-1], "t": [0.5 + 0.25 * ui, 0, 0, 0.75, 40 + 3 * ui, 10]}
+        g["components"] = [first, second]
+        for lname, layer in (u.get("layers") or {}).items():
+            for lg in layer:
+                if lg["name"] == target:
+                    lg["components"] = [dict(first), dict(second)]
+
+
 def gen(rng, idx, tier):
     func = rng.choice(FUNCS)
     kinds = rng.choice([["line", "curve"], ["line", "curve", "qcurve"], ["curve"], ["line", "qcurve"]])
@@ -74,6 +106,8 @@ def gen(rng, idx, tier):
                         coord_mode=rng.choice(["int", "half", "float"]))
     if rng.random() < 0.8:
         exaggerate(rng, ds)
+    if rng.random() < 0.35:
+        later_component_2x2(rng, ds)
     opts = {}
     if "TTF" in func and rng.random() < 0.35:
         opts["flattenComponents"] = True
